@@ -209,10 +209,14 @@ def fam_c06(tier, seed):
         for l in sk.bs_family(4, 4, [0, 30], tickers=("A", "B"), need_sell=True):
             if has_same_day_pair(l):
                 perm.append((l, BASES[0]))
-    # a split and trades on one day
+    # a split / capital event and trades on one day
     base3 = list(sk.bs_family(2, 3, SHORT, need_sell=True))
     for l in sk.with_events(base3, ("X", "U"), SHORT, ratios=("2",), max_events=1):
         if has_same_day_pair(l):
+            perm.append((l, BASES[0]))
+    for l in sk.with_events(base3, ("C", "M"), [1, 30], max_events=1):
+        ev = [x for x in l if x[0] in "CM"][0]
+        if any(x[0] in "BS" and x[2] == ev[2] for x in l):
             perm.append((l, BASES[0]))
     sks += _number("p", _dedup(perm), variant="perm", perms="gen" if tier == "quick" else "all")
     small = [(l, BASES[0]) for l in sk.bs_family(1, 3 if tier == "quick" else 4, SHORT, need_sell=True)]
